@@ -488,12 +488,57 @@ var c07BugOps = []c07Op{
 		orphan.Parents = nil
 		h.Packs = append(h.Packs, orphan)
 		merge := h.Packs[len(h.Packs)-2]
+		merge.Entries = append([]repository.TreeEntry(nil), merge.Entries...) // not the head's own slice
 		merge.Parents = []int{len(h.Packs) - 2, len(h.Packs) - 1}
 		d, ok := parseOps(merge.OpsBlob)
 		if !ok {
 			return false
 		}
 		merge.OpsBlob = []byte(`{"author":` + string(d.Author) + `,"ops":null}`)
+		for n := range merge.Entries {
+			if strings.HasPrefix(merge.Entries[n].Name, "edit-clock-") {
+				merge.Entries[n].Name = "edit-clock-9999"
+			}
+			if strings.HasPrefix(merge.Entries[n].Name, "create-clock-") {
+				merge.Entries[n].Name = "zz-was-create-clock"
+			}
+		}
+		h.Packs = append(h.Packs, merge)
+		return true
+	}},
+	{"commit/second-root-with-create-clock", true, func(h *history, j, i int, env *c07Env) bool {
+		// like commit/second-root, but the extra root looks like a genuine first commit: it carries a create-clock
+		// entry and operations of its own (fresh ids, no create operation), so nothing but the
+		// "exactly one root" rule rejects the history
+		if len(h.Packs) < 2 {
+			return false
+		}
+		k := 1 + j%(len(h.Packs)-1)
+		if len(h.Packs[k].Parents) != 1 {
+			return false
+		}
+		src := h.Packs[k]
+		d, ok := parseOps(src.OpsBlob)
+		if !ok || len(d.Ops) == 0 {
+			return false
+		}
+		for n := range d.Ops {
+			d.Ops[n] = setField(d.Ops[n], "nonce", b64(20+n%40))
+		}
+		orphan := hPack{Entries: append([]repository.TreeEntry(nil), src.Entries...), OpsBlob: d.render()}
+		for _, e := range h.Packs[0].Entries {
+			if strings.HasPrefix(e.Name, "create-clock-") {
+				orphan.Entries = append(orphan.Entries, e)
+			}
+		}
+		head := len(h.Packs) - 1
+		h.Packs = append(h.Packs, orphan)
+		merge := hPack{Entries: append([]repository.TreeEntry(nil), h.Packs[head].Entries...), Parents: []int{head, head + 1}}
+		md, ok := parseOps(h.Packs[head].OpsBlob)
+		if !ok {
+			return false
+		}
+		merge.OpsBlob = []byte(`{"author":` + string(md.Author) + `,"ops":null}`)
 		for n := range merge.Entries {
 			if strings.HasPrefix(merge.Entries[n].Name, "edit-clock-") {
 				merge.Entries[n].Name = "edit-clock-9999"
